@@ -651,6 +651,31 @@ func c06Faults(r *zsim.Run) {
 			r.Logf("key deleted, %d DEL commands seen for it so far", delsAtGone)
 		}
 	}
+	if kind == 0 && extra == nil {
+		// error replies reach the server, so every attempt is on record: the write's own delete, then retries that
+		// back off - 1s, 5s, 1m, 5m, 1h after the attempt before (the wheel fires up to a tick early)
+		var at []time.Duration
+		for _, c := range srv.Cmds {
+			if c.Name != "DEL" || c.At < t0 {
+				continue
+			}
+			for _, a := range c.Args {
+				if a == key {
+					at = append(at, c.At)
+					break
+				}
+			}
+		}
+		for i := 1; i < len(at) && i-1 < len(c06Delays); i++ {
+			if gap := at[i] - at[i-1]; gap < c06Delays[i-1]-2*time.Second {
+				r.Failf("retry-not-backing-off", "delete attempts for key %s at %v: attempt %d came %v after the one before, the schedule says %v", key, at, i+1, gap, c06Delays[i-1])
+				return
+			}
+		}
+		if len(at) > 2 {
+			r.Probe("retry_schedule_checked")
+		}
+	}
 	if !stillCached {
 		// the delete took effect although the client saw a failure (lost reply): nothing stale is left
 		r.Probe("delete_applied_despite_error")
